@@ -1213,6 +1213,12 @@ impl Vm {
         {
             self.active_fiber_mut().take_return_data();
         }
+        // Likewise the exception that the finally block being left was entered with.
+        if self.handling_exception && self.active_fiber().pending_frame_count == frame_count {
+            self.handling_exception = false;
+            self.active_fiber_mut().pending_exception = Value::None;
+            self.active_fiber_mut().error_ip = None;
+        }
         self.active_fiber_mut().close_upvalues_for_frame();
 
         let prev_stack_size = self.active_fiber().current_frame().unwrap().slot_base;
@@ -1592,6 +1598,7 @@ impl Vm {
             // No catch block: the finally block runs at the stack height of the normal path, the
             // exception waits in the fiber until EndFinally re-raises it.
             self.active_fiber_mut().pending_exception = exc_object;
+            self.active_fiber_mut().pending_frame_count = handler.frame_count;
         } else {
             self.push(exc_object);
         }
